@@ -88,7 +88,7 @@ def check_fault_case(ctx, ch, events, engine, dm):
 
 # ---- robustness: damaged documents -------------------------------------------------------------------------
 damage_ops = st.lists(st.tuples(st.sampled_from(['drop_attr', 'dup_id', 'dangling', 'rename_tag', 'swap_parent', 'huge_id', 'unknown_elem',
-                                                 'empty_attr', 'del_elem', 'bad_ns', 'dup_elem', 'misplaced_elem', 'misplaced_elem', 'hist_to_final']), st.integers(0, 10 ** 6)),
+                                                 'empty_attr', 'del_elem', 'bad_ns', 'dup_elem', 'misplaced_elem', 'misplaced_elem', 'hist_to_final', 'hist_to_final', 'hist_to_final']), st.integers(0, 10 ** 6)),
                       min_size=1, max_size=3)
 
 
